@@ -486,7 +486,7 @@ func (g *egen) path() string {
 		s = "$"
 	}
 	if g.rnd.Intn(6) == 0 {
-		s += []string{".f1()", ".g1()", ".fodd()", ".f1().g2()", ".g1().f2()", ".ferr()", ".gerr()"}[g.rnd.Intn(7)]
+		s += []string{".f1()", ".g1()", ".fodd()", ".f1().g2()", ".g1().f2()", ".ferr()", ".gerr()", ".gid()", ".gid().g2()"}[g.rnd.Intn(9)]
 	}
 	return s
 }
